@@ -201,9 +201,14 @@ def run_case(case, ctx):
         return {'harness_error': 'validity oracle disagrees with the enumerated valid set for %s' % case['id']}
     # a small cube: just above one cell per axis, capped
     if is2d:
-        D = gen.cube((7, 9), 3)
+        # trace count: a few traces, or (for half of the valid settings) exactly one / two full trace groups of the resolved blockshape
+        import zlib
+        nT2 = 7
+        if eff and valid and eff[1][1] <= 2048 and zlib.crc32(case['id'].encode()) % 2 == 0:
+            nT2 = eff[1][1] * (1 + zlib.crc32(case['id'].encode()) // 2 % 2)
+        D = gen.cube((nT2, 9), 3)
         sgy = sc.file('s.sgy')
-        hdrs = [{1: t + 1, 21: 10 + t} for t in range(7)]
+        hdrs = [{1: t + 1, 21: 10 + t} for t in range(nT2)]
         gen.make_segy_traces(sgy, list(D), hdrs, fmt=5)
         D = gen.source_traces(sgy)
     else:
